@@ -174,7 +174,7 @@ class Space:
     """
 
     def __init__(self, name, chunks, run_case=None, expand=None, bounds=None, run_chunk=None,
-                 max_fail_per_chunk=20, sig=None):
+                 max_fail_per_chunk=500, sig=None):
         self.name = name
         self.chunks = chunks
         self.expand = expand or (lambda ch: ch)
@@ -368,7 +368,7 @@ def run_spaces(spaces, seed, budget_s=None, nproc=None):
             S.extra.update(res.extra)
             S.out_of_domain += res.out_of_domain
             S.disabled += res.disabled
-            if len(S.fails) < 2000:
+            if len(S.fails) < 100000:
                 S.fails.extend(res.fails)
             else:
                 S.extra['fails_not_listed'] += len(res.fails)
